@@ -137,6 +137,9 @@ func (c *hookCtl) install(rng *lib.Rand) {
 }
 
 func (c *hookCtl) callback(site string) {
+	if schedYield(site) {
+		return
+	}
 	c.mu.Lock()
 	c.hits[site]++
 	if c.armed == site && c.armedG == goid() {
